@@ -2,6 +2,7 @@ package core
 
 import (
 	"fmt"
+	"sort"
 
 	"github.com/jsightapi/jsight-api-go-library/directive"
 	"github.com/jsightapi/jsight-api-go-library/jerr"
@@ -38,28 +39,61 @@ func (core *JApiCore) compileCore() *jerr.JApiError {
 }
 
 func (core *JApiCore) checkMacroForRecursion() *jerr.JApiError {
-	for macroName, macro := range core.macro {
-		if je := findPaste(macroName, macro); je != nil {
+	names := make([]string, 0, len(core.macro))
+	for n := range core.macro {
+		names = append(names, n)
+	}
+	sort.Strings(names) // in order to report the same error every time
+
+	checked := make(map[string]struct{}, len(names))
+	for _, n := range names {
+		if _, ok := checked[n]; ok {
+			continue
+		}
+		if je := core.findPaste(map[string]struct{}{n: {}}, checked, core.macro[n]); je != nil {
 			return je
 		}
+		checked[n] = struct{}{}
 	}
 	return nil
 }
 
-func findPaste(macroName string, d *directive.Directive) *jerr.JApiError {
+// findPaste looks for a PASTE directive which leads, directly or through any
+// number of other macros, back to one of the macros being expanded (the stack).
+// Macros which are known to be free of recursion are collected in checked.
+func (core *JApiCore) findPaste(stack, checked map[string]struct{}, d *directive.Directive) *jerr.JApiError {
 	if d.Type() == directive.Paste {
-		switch d.NamedParameter("Name") {
-		case "":
+		name := d.NamedParameter("Name")
+		if name == "" {
 			return d.KeywordError(fmt.Sprintf("%s (%s)", jerr.RequiredParameterNotSpecified, "Name"))
+		}
 
-		case macroName:
+		if _, ok := stack[name]; ok {
 			return d.KeywordError("recursion is prohibited")
 		}
-	} else if d.Children != nil {
-		for _, c := range d.Children {
-			if je := findPaste(macroName, c); je != nil {
-				return je
-			}
+
+		if _, ok := checked[name]; ok {
+			return nil
+		}
+
+		macro, ok := core.macro[name]
+		if !ok {
+			return nil // will be reported when the PASTE is processed
+		}
+
+		stack[name] = struct{}{}
+		je := core.findPaste(stack, checked, macro)
+		delete(stack, name)
+		if je != nil {
+			return je
+		}
+		checked[name] = struct{}{}
+		return nil
+	}
+
+	for _, c := range d.Children {
+		if je := core.findPaste(stack, checked, c); je != nil {
+			return je
 		}
 	}
 	return nil
